@@ -16,8 +16,9 @@ PAYLOADS = [b'', b'x', b'line of text', b'-- a/file', b'++ b/file',
             b'@@ -1 +1 @@', b' leading space', b'\ttab', b'+', b'-', b' ',
             b'\\ No newline at end of file', b'#.change:', b'diff --git a b',
             b'\xc3\xa9 caf\xc3\xa9', b'tail ', b'@@', b'form\x0cfeed', b'vt\x0bx',
-            b'fs\x1cx', b'lone\rcr', b'y' * 1500]
-GARBAGE = [b'diff --git a/x b/x', b'index 123..456 100644', b'--- a/x',
+            b'fs\x1cx', b'lone\rcr', b'y' * 1500, b'cr at end\r']
+GARBAGE = [b'@@ -4 +4 @@@', b'@@ -4,2 +4,2 @@x', b'@@ -1 +1 @@\t',
+           b'@@ -1 +1 @@@ ctx', b'diff --git a/x b/x', b'index 123..456 100644', b'--- a/x',
            b'+++ b/x', b'', b'Index: x', b'=====', b'@@ not a header @@',
            b'@@ -1 +1', b'@@', b'\\ No newline at end of file',
            b'+stray insert', b'-stray delete', b' stray context',
@@ -51,6 +52,12 @@ def hunk_st(draw, max_body=8):
                 body.append(['marker', MARKER])
             else:
                 body.append([k, draw(st.sampled_from(PAYLOADS))])
+
+    if body and draw(st.integers(0, 9)) == 0:
+        # a deleted line "-- ..." directly followed by an inserted "++ ..."
+        # (they read "--- ..." / "+++ ..." like a file header)
+        k = draw(st.integers(0, len(body)))
+        body[k:k] = [['-', b'-- a/old name'], ['+', b'++ b/new name']]
 
     return {
         'orig_start': draw(st.sampled_from([0, 1, 1, 2, 10, 164, 99999])),
